@@ -214,6 +214,12 @@ func (s *parserListener) EnterValueString(ctx *parser.ValueStringContext) {
 	})
 }
 
+// EnterValueNull is called when production valueNull is entered.
+// The null literal has no value: it is kept as an empty expression, whose evaluation is an error.
+func (s *parserListener) EnterValueNull(ctx *parser.ValueNullContext) {
+	s.expressionCallbacks.Peek()(&Expression{})
+}
+
 // EnterValueFunc is called when production valueFunc is entered.
 func (s *parserListener) EnterValueFunc(ctx *parser.ValueFuncContext) {
 	s.functionCallCallback = func(functionCall *FunctionCall) {
